@@ -17,7 +17,7 @@ use std::collections::HashMap;
 
 pub const CHECK: Check = Check { id: "C15", level: "exploration", flavours: &["prod"], run, replay };
 
-const RULE: &str = "cases = (operation in {write, write from a source that ends long before the announced size, repair in the default and in the 'even unauthenticated' mode, linear extract}, layer set, compression level, data class random / compressible, \
+const RULE: &str = "cases = (operation in {write, write to a destination accepting 4 KiB / 32 KiB per call, write from a source that ends long before the announced size, repair in the default and in the 'even unauthenticated' mode, linear extract}, layer set, compression level, data class random / compressible, \
 append piece size, number of files, interleaving on/off), each executed twice in a worker process of its own: streaming S bytes \
 and streaming k*S bytes (quick: 32 MiB vs 128 MiB; thorough: 64 MiB vs 1 GiB) from an on-the-fly generator into a counting \
 sink (inputs of repair / extract are files under /verif/.work). Oracle: peak live heap measured by a counting global \
@@ -48,6 +48,9 @@ pub struct Case {
     /// what is measured is the memory it uses on the way)
     #[serde(default)]
     pub short_source: bool,
+    /// write only: the destination accepts at most this many bytes per call (0 = everything)
+    #[serde(default)]
+    pub sink_cap: u32,
 }
 
 fn write_archive<W: std::io::Write>(c: &Case, total: u64, nfiles: usize, sink: W) -> Result<W, String> {
@@ -119,7 +122,7 @@ fn measure(c: &Case, total: u64, nfiles: usize) -> Result<usize, String> {
         }
         0 => {
             let base = alloc::reset_peak();
-            let sink = write_archive(c, total, nfiles, CountingSink::default())?;
+            let sink = write_archive(c, total, nfiles, CountingSink { n: 0, cap: c.sink_cap as usize })?;
             let peak = alloc::peak().saturating_sub(base);
             if sink.n < total / 200 {
                 return Err("HARNESS: writer produced almost nothing".into());
@@ -218,7 +221,7 @@ pub fn worker(args: &[String]) -> i32 {
 
 pub fn judge(c: &Case, a: usize, b: usize, thorough: bool) -> Result<(), String> {
     let mib = |x: usize| x as f64 / (1 << 20) as f64;
-    let opn = if c.short_source { "write (source ends early)" } else if c.unauth { "repair (unauthenticated mode)" } else { ["write", "repair", "linear extract"][(c.op % 3) as usize] };
+    let opn = if c.sink_cap != 0 { "write (destination accepts part of each write)" } else if c.short_source { "write (source ends early)" } else if c.unauth { "repair (unauthenticated mode)" } else { ["write", "repair", "linear extract"][(c.op % 3) as usize] };
     if c.family == 0 {
         if b > 96 << 20 {
             return Err(format!("{opn} ({}, level {}): peak heap {:.1} MiB while streaming the larger amount (ceiling 96 MiB)", prog::layers_name(c.layers), c.level, mib(b)));
@@ -271,7 +274,9 @@ fn case() -> impl Strategy<Value = Case> {
             // repair allocates (and zeroes) its 8 MiB buffer for every content block it meets: archives made of
             // tiny blocks make it slow, which is not what this check measures
             let piece = if op % 3 == 1 { piece.max(65536) } else { piece };
-            Case { op, layers, level, compressible, piece, nfiles, interleave, family, seed, unauth, short_source: false }
+            // a third of the write cases go to a destination that accepts 4 KiB or 32 KiB per call
+            let sink_cap = if op % 3 == 0 { [0u32, 0, 4096, 0, 32768, 0][(seed % 6) as usize] } else { 0 };
+            Case { op, layers, level, compressible, piece, nfiles, interleave, family, seed, unauth, short_source: false, sink_cap }
         })
 }
 
@@ -429,6 +434,16 @@ fn run(ctx: &Ctx) -> Report {
         c.family = 0;
         c.unauth = true;
         c.piece = c.piece.max(65536);
+    }
+    // directed: writing to a destination that keeps accepting less than it is offered
+    for (i, c) in cases.iter_mut().enumerate().skip(28).take(4) {
+        c.op = 0;
+        c.layers = (i % 4) as u8;
+        c.family = 0;
+        c.unauth = false;
+        c.short_source = false;
+        c.sink_cap = if i % 2 == 0 { 4096 } else { 32768 };
+        c.level = c.level.min(1);
     }
     // directed: an append that announces the whole amount from a source that ends after 1 MiB
     for (i, c) in cases.iter_mut().enumerate().skip(24).take(4) {
